@@ -156,3 +156,7 @@ for _pid, _site in {'C01': 'net2d-oracle', 'C02': 'net2d-oracle', 'C03': 'net2d-
     PROPS[_pid]['e1'].append(dict(NET2D)); PROPS[_pid]['must_reach'].append(_site)
     PROPS[_pid]['bounds'] = PROPS[_pid]['bounds'] + NET2D_BOUNDS
     PROPS[_pid]['outside'] = PROPS[_pid]['outside'] + NET2D_OUT
+for _pid, _site in {'C09': 'net2d-stats', 'C20': 'net2d-illposed'}.items():
+    PROPS[_pid]['e1'].append(dict(NET2D)); PROPS[_pid]['must_reach'].append(_site)
+    PROPS[_pid]['bounds'] = PROPS[_pid]['bounds'] + NET2D_BOUNDS
+    PROPS[_pid]['outside'] = PROPS[_pid]['outside'] + NET2D_OUT + ('; ill-posed plane networks whose point-removal loop reaches singular_coords() with an all-zero column (0/0 compared as NaN)' if _pid == 'C20' else '')
